@@ -107,6 +107,26 @@ CHECKS.update({
              '2^40, more than 4 validators and deeper rounds are outside the scope.'),
 })
 
+CHECKS.update({
+    'C06': dict(
+        engine='crashnode',
+        technique='TLA+ spec CommitPipeline.tla (every durable write of one commit in program order, Crash between any two and during '
+                  'recovery, recovery transcribed branch by branch) model-checked exhaustively with TLC; fault enumeration on a real '
+                  'single-validator node subprocess: the process is killed immediately before each durable write of each block kind (and '
+                  'again during recovery), restarted, and compared via RPC, offline database reads and a re-execution of the whole chain on '
+                  'a fresh node; the uncrashed durable-write log is validated against the spec with TLC (trace validation)',
+        level=('fault_enumeration',
+               'Every one of the 35-36 durable writes issued while a block of each kind (EVM create/transfer, contract call, kv, validator '
+               'change, empty) is decided and committed is a crash point on the real node binary; each is also combined with a second crash '
+               'during the restart. After restart the node must commit 2 further blocks; store/state/app heights and hashes must agree; blocks '
+               'readable before must be unchanged; every scripted transaction must be applied exactly once; re-executing the chain on a fresh '
+               'node must reproduce every AppHash/ReceiptsHash/validators hash. TLC proves the same properties plus progress on the model for '
+               '<=3 heights x <=3 crashes.', 'DESIGN.md §4 C06'),
+        note='Trusted: TLC, the durable-write hook placement (go-db, ethdb, autofile, WriteFileAtomic), crashdrv readers. Bounds: one validator, '
+             'pbft only (raft FSM.Apply not bound), process death only (no power loss), 5 block kinds, <=2 nested crashes; quick samples ~34 '
+             'points, thorough runs all.'),
+})
+
 NOT_YET = 'not yet built: the specification for this property is planned in DESIGN.md §4 but no check is registered yet'
 NOT_APPLICABLE = {
     'C18': 'codec round-trip/robustness/injectivity are statements about pure functions over byte strings; there is no '
